@@ -698,17 +698,46 @@ func ZZRunIllTyped() {
 
 func init() { vn.Register("zzpub.ZZRunIllTyped", ZZRunIllTyped) }
 
+// Well-typed programs that are only typechecked (they need not terminate): recursion through every
+// kind of type constructor, in particular through shifts.
+var verdictOnlyMenu = []struct{ name, what, src string }{
+	{"v1", "a type recursive directly through an up-shift", `type A = lin /\ lin A
+let f() : A = x <- shift self; f()
+prc[a] : A = f()`},
+	{"v2", "two types recursive through an up-shift and a down-shift", `type idle = lin /\ aff busy
+type busy = aff \/ lin idle
+let srv() : idle = b <- shift self; t <- new srv(); cast self<t>
+let use(s : busy) : lin 1 = i <- shift s; drop i; close self
+prc[server] : idle = srv()`},
+	{"v3", "an alias of a type recursive through a shift", `type B = A
+type A = lin /\ lin A
+let f() : B = x <- shift self; f()
+let g(y : A) : B = fwd self y
+prc[a] : A = f()`},
+	{"v4", "a type recursive through a down-shift, producer and consumer", `type S = lin \/ lin S
+let p() : S = t <- new p(); cast self<t>
+let c(s : S) : lin 1 = x <- shift s; c(x)
+prc[a] : S = p()`},
+	{"v5", "a list type recursive through a choice and a product", `type L = lin +{nil : 1, cons : 1 * L}
+let nil() : L = t : lin 1 <- new close self; self.nil<t>
+let cons(l : L) : L = h : lin 1 <- new close self; p : lin 1 * L <- new (send self<h, l>); self.cons<p>
+let len(l : L) : lin 1 = case l ( nil<u> => wait u; close self | cons<p> => <h, t> <- recv p; wait h; print one; len(t) )
+prc[a] : lin 1 = e <- new nil(); l <- new cons(e); len(l)`},
+}
+
 // ZZMenuVerdicts: the typechecker's verdict on every program of both menus (no execution): the
 // well-typed ones are accepted (in particular the respelled variants: re-using the spelling of
 // a consumed name changes nothing), the ill-typed ones rejected, and the worker always answers.
 func ZZMenuVerdicts() {
-	n := len(runMenu) + len(illTypedMenu)
+	n := len(runMenu) + len(illTypedMenu) + len(verdictOnlyMenu)
 	k := vn.Pick(n)
 	src, wellTyped, respelled := "", true, false
 	if k < len(runMenu) {
 		src, respelled = runMenu[k].src, runMenu[k].respelled
-	} else {
+	} else if k < len(runMenu)+len(illTypedMenu) {
 		src, wellTyped = illTypedMenu[k-len(runMenu)].src, false
+	} else {
+		src = verdictOnlyMenu[k-len(runMenu)-len(illTypedMenu)].src
 	}
 	procs, assumed, genv, perr := parser.ParseString(src)
 	vn.Assert("C11.menu-program-parses", perr == nil)
